@@ -4,6 +4,7 @@ let () =
   | _ :: "c03" :: path :: _ -> C03.run path
   | _ :: "c14" :: path :: _ -> C14.run path
   | _ :: "c04" :: path :: _ -> C04.run path
+  | _ :: "c12" :: path :: _ -> C12.run path
   | _ :: "c05" :: path :: _ -> C05.run path
   | _ :: "c06" :: path :: _ -> C06.run path
   | _ :: "ps" :: path :: _ -> Ps.run path
